@@ -78,6 +78,11 @@ Theorem C06_mtcsd_diag_is_psd : forall sd N K Fs w d Y i f,
 Proof. exact mtcsd_diag_is_psd. Qed.
 Print Assumptions C06_mtcsd_diag_is_psd.
 
+(* the settings mean the same in both functions: multi_taper_csd's own NW / BW / default-NW
+   derivation (as written there) yields the NW of multi_taper_psd, hence the same Kmax and tapers *)
+Theorem C06_nw_derivation_agrees : forall bw nw n Fs, nw_csd bw nw n Fs = nw_psd bw nw n Fs.
+Proof. exact nw_csd_is_nw_psd. Qed.
+
 (* ---------------------------------------------------------------- positive semidefinite:
    v^H S v is real and >= 0 for every complex vector v, every M *)
 Theorem C06_gram_psd : forall M K c (a : nat -> nat -> C) S v,
